@@ -12,6 +12,7 @@ import (
 	"testing"
 	"time"
 
+	"github.com/olric-data/olric/internal/cluster/partitions"
 	"github.com/olric-data/olric/internal/verifhook"
 	"github.com/olric-data/olric/internal/zzverif/vcommon"
 	"pgregory.net/rapid"
@@ -192,9 +193,18 @@ func runC09(c *c09Case) (v *vcommon.Violation, nontrivial, inconclusive bool) {
 			st = c09State{present: true, val: seq}
 			setDefaultTTL(r)
 		case "incr":
+			ttlBefore := decodeCopy(cl.ownerOf(name, key).db.dmap.VerifRaw(name, key, partitions.PRIMARY))
 			r = pc.incr(ctx, key, 7, false)
 			stat := status(r.Inv, r.Ret)
 			note(stat)
+			// "Incr/Decr keep it": the stored deadline of a live key does not move earlier, and later only by
+			// the time the operation itself took (it is re-computed from the remaining life)
+			if ttlAfter := decodeCopy(cl.ownerOf(name, key).db.dmap.VerifRaw(name, key, partitions.PRIMARY)); r.Err == "" && stat == 1 &&
+				ttlBefore.present && ttlBefore.ttl > 0 && ttlAfter.present && string(ttlAfter.value) == strconv.FormatInt(st.val+7, 10) {
+				if ttlAfter.ttl < ttlBefore.ttl || ttlAfter.ttl > ttlBefore.ttl+(r.Ret-r.Inv)/1e6+1 {
+					return bad("incr-moved-deadline", "Incr on a live key moved its stored deadline from %d to %d (the call took %.2f ms)", ttlBefore.ttl, ttlAfter.ttl, float64(r.Ret-r.Inv)/1e6), nontrivial, false
+				}
+			}
 			if r.Err != "" {
 				if strings.HasPrefix(r.Err, "other:") {
 					return nil, nontrivial, true
